@@ -17,8 +17,14 @@ def FileInv (pf : Ver → TextId → Option TreeId) (f : DbFile) : Prop := ∀ r
 
 def RowInv (pf : Ver → TextId → Option TreeId) (s : St) : Prop := FileInv pf s.file
 
-/-- the process has not initialised the database, or the `models` table can be queried -/
-def Synced (s : St) : Prop := s.init = true → s.file.queryable.isSome = true
+/-- every statement of `parse` works on the `models` table (lookup, update, delete *and* insert) -/
+def Insertable (f : DbFile) : Prop := ∃ m, f.queryable = some m ∧ m.layout ≠ .extraCol
+
+/-- the process has not initialised the database, or the `models` table is fully usable -/
+def Synced (s : St) : Prop := s.init = true → Insertable s.file
+
+/-- … or at least its damage shows at the lookup (what the recovery of fix 821b239 copes with) -/
+def Usable (s : St) : Prop := s.init = true → (s.file.queryable = none ∨ Insertable s.file)
 
 /-- no stored row unpickles to `None` -/
 def NoNone (f : DbFile) : Prop := ∀ r ∈ rowsOf f, r.blob ≠ .good none
@@ -116,25 +122,41 @@ theorem fileInv_touch {f f' : DbFile} {x : TextId} {v : Ver} {t : Int} (h : File
     have h0 := h r0 (by rw [queryable_rows hq]; exact hr0)
     split <;> simpa [RowOk] using h0
 
+theorem txInsert_ok {f f' : DbFile} {x : TextId} {v : Ver} {tree : TreeId} {t : Int} (he : txInsert x v tree t f = .ok f') :
+    ∃ m, f.queryable = some m ∧ m.layout ≠ .extraCol ∧
+      f' = f.setRows ((if m.layout = .ok then m.rows.filter (fun r => !matches_ x v r) else m.rows) ++
+        [⟨x, v, .good (some tree), t⟩]) := by
+  unfold txInsert at he
+  cases hq : f.queryable with
+  | none => simp [hq] at he
+  | some m =>
+    simp only [hq] at he
+    by_cases hl : m.layout = .extraCol
+    · simp [hl] at he
+    · simp only [hl, if_false] at he
+      exact ⟨m, rfl, hl, by cases he; rfl⟩
+
+theorem txInsert_insertable {f : DbFile} {x : TextId} {v : Ver} {tree : TreeId} {t : Int} (h : Insertable f) :
+    ∃ f', txInsert x v tree t f = .ok f' ∧ Insertable f' := by
+  obtain ⟨m, hq, hl⟩ := h
+  refine ⟨_, by simp [txInsert, hq, hl]; rfl, ?_⟩
+  exact ⟨_, queryable_setRows _ hq, hl⟩
+
 theorem fileInv_insert {f f' : DbFile} {x : TextId} {v : Ver} {tree : TreeId} {t : Int} (h : FileInv pf f)
     (hpf : pf v x = some tree) (he : txInsert x v tree t f = .ok f') : FileInv pf f' := by
-  unfold txInsert at he
-  split at he
-  · cases he
-  · rename_i m hq
-    cases he
-    intro r hr
-    rw [rowsOf_setRows _ hq] at hr
-    rcases List.mem_append.mp hr with hr | hr
-    · have : r ∈ m.rows := by
-        split at hr
-        · exact (List.mem_filter.mp hr).1
-        · exact hr
-      exact h r (by rw [queryable_rows hq]; exact this)
-    · simp at hr; subst hr
-      intro t' ht'
-      simp at ht'; subst ht'
-      exact hpf
+  obtain ⟨m, hq, _, rfl⟩ := txInsert_ok he
+  intro r hr
+  rw [rowsOf_setRows _ hq] at hr
+  rcases List.mem_append.mp hr with hr | hr
+  · have : r ∈ m.rows := by
+      split at hr
+      · exact (List.mem_filter.mp hr).1
+      · exact hr
+    exact h r (by rw [queryable_rows hq]; exact this)
+  · simp at hr; subst hr
+    intro t' ht'
+    simp at ht'; subst ht'
+    exact hpf
 
 /-! ### what the initialisation block does -/
 
@@ -180,7 +202,8 @@ theorem read_file (s : St) : s.read.2.file = s.file := rfl
 theorem read_ver (s : St) : s.read.2.ver = s.ver := rfl
 theorem read_init (s : St) : s.read.2.init = s.init := rfl
 
-theorem finish_inv {s : St} {x : TextId} {tree : Option TreeId} (h : RowInv pf s) : RowInv pf (finish pf s x tree).1 := by
+theorem finish_inv {cfg : Cfg} {s : St} {x : TextId} {tree : Option TreeId} (h : RowInv pf s) :
+    RowInv pf (finish cfg pf s x tree).1 := by
   unfold finish
   split
   · exact h
@@ -189,49 +212,38 @@ theorem finish_inv {s : St} {x : TextId} {tree : Option TreeId} (h : RowInv pf s
     · rename_i t hpf
       simp only []
       split
-      · exact h
+      · split <;> exact h
       · rename_i f he
         exact fileInv_insert (pf := pf) (f := s.file) h hpf (by simpa [St.read] using he)
 
-theorem finish_none_transparent {s : St} {x : TextId} (hq : s.file.queryable.isSome = true) :
-    (finish pf s x none).2 = .value (pf s.ver x) := by
+theorem finish_none_spec {cfg : Cfg} {s : St} {x : TextId} (hq : Insertable s.file) :
+    (finish cfg pf s x none).2 = .value (pf s.ver x) ∧ Insertable (finish cfg pf s x none).1.file ∧
+    (finish cfg pf s x none).1.init = s.init := by
+  unfold finish
+  simp only []
+  cases hpf : pf s.ver x with
+  | none => exact ⟨rfl, hq, rfl⟩
+  | some t =>
+    simp only []
+    obtain ⟨f', he, hi⟩ := txInsert_insertable (x := x) (v := s.read.2.ver) (tree := t) (t := s.read.1) (f := s.read.2.file) hq
+    rw [he]
+    exact ⟨rfl, hi, rfl⟩
+
+/-- with a tolerated cache write the result is right whatever the insert does -/
+theorem finish_none_tolerant {cfg : Cfg} {s : St} {x : TextId} (hw : cfg.writeTolerant = true) :
+    (finish cfg pf s x none).2 = .value (pf s.ver x) := by
   unfold finish
   simp only []
   cases hpf : pf s.ver x with
   | none => rfl
   | some t =>
     simp only []
-    obtain ⟨m, hm⟩ := Option.isSome_iff_exists.mp hq
-    have : txInsert x s.read.2.ver t s.read.1 s.read.2.file =
-        .ok (s.file.setRows ((if m.layout = .ok then m.rows.filter (fun r => !matches_ x s.ver r) else m.rows) ++
-          [⟨x, s.ver, .good (some t), s.now⟩])) := by
-      simp [txInsert, St.read, hm]
-    rw [this]
-
-theorem finish_queryable {s : St} {x : TextId} {tree : Option TreeId} (hq : s.file.queryable.isSome = true) :
-    (finish pf s x tree).1.file.queryable.isSome = true := by
-  unfold finish
-  split
-  · exact hq
-  · split
-    · exact hq
-    · simp only []
-      obtain ⟨m, hm⟩ := Option.isSome_iff_exists.mp hq
-      split
-      · simpa [St.read] using hq
-      · rename_i f he
-        simp [txInsert, St.read, hm] at he
-        subst he
-        simp [queryable_setRows _ hm]
-
-theorem finish_init {s : St} {x : TextId} {tree : Option TreeId} : (finish pf s x tree).1.init = s.init := by
-  unfold finish
-  split
-  · rfl
-  · split
+    split
+    · simp [hw]
     · rfl
-    · simp only []
-      split <;> simp [St.read]
+
+theorem finish_some {cfg : Cfg} {s : St} {x : TextId} {t : TreeId} :
+    finish cfg pf s x (some t) = (s, .value (some t)) := rfl
 
 theorem lookup_found {f : DbFile} {m : Models} {x : TextId} {v : Ver} {lh : Int} {b : Blob}
     (hq : f.queryable = some m) (h : txLookup x v f = .ok (some (lh, b))) :
@@ -249,7 +261,7 @@ theorem lookup_found {f : DbFile} {m : Models} {x : TextId} {v : Ver} {lh : Int}
 /-- the state after the optional `UPDATE … last_hit` -/
 theorem touched_spec (s : St) (x : TextId) (upd : Bool) (lh : Int) {m : Models} (hq : s.file.queryable = some m) :
     ∃ s1 : St, touchStep s x upd lh = .ok s1 ∧
-      s1.ver = s.ver ∧ s1.init = s.init ∧ s1.file.queryable.isSome = true ∧
+      s1.ver = s.ver ∧ s1.init = s.init ∧ (∃ rows, s1.file.queryable = some { m with rows := rows }) ∧
       (∀ pf, FileInv pf s.file → FileInv pf s1.file) ∧ (NoNone s.file → NoNone s1.file) := by
   unfold touchStep
   simp only []
@@ -262,7 +274,7 @@ theorem touched_spec (s : St) (x : TextId) (upd : Bool) (lh : Int) {m : Models} 
       refine ⟨_, rfl, rfl, rfl, ?_, ?_, ?_⟩
       · simp [txTouch, hq'] at ht
         subst ht
-        simp [queryable_setRows _ hq']
+        exact ⟨_, queryable_setRows _ hq'⟩
       · intro pf h
         exact fileInv_touch (f := s.file) h ht
       · intro h
@@ -274,43 +286,75 @@ theorem touched_spec (s : St) (x : TextId) (upd : Bool) (lh : Int) {m : Models} 
         have h0 := h r0 (by rw [queryable_rows hq]; exact hr0)
         split <;> simpa using h0
   · simp only [hc]
-    exact ⟨_, rfl, rfl, rfl, by simp [St.read, hq], fun _ h => h, fun h => h⟩
+    exact ⟨_, rfl, rfl, rfl, ⟨m.rows, by simpa [St.read] using hq⟩, fun _ h => h, fun h => h⟩
 
+/-- `afterInit` from a state whose `models` table is fully usable -/
 theorem afterInit_spec {cfg : Cfg} {s : St} {x : TextId} {upd : Bool} (hc : CaughtAll cfg) (h : RowInv pf s)
-    (hq : s.file.queryable.isSome = true) :
+    (hq : Insertable s.file) :
     (afterInit cfg pf s x upd).2 = .value (pf s.ver x) ∧ RowInv pf (afterInit cfg pf s x upd).1 ∧
-    (afterInit cfg pf s x upd).1.file.queryable.isSome = true ∧ (afterInit cfg pf s x upd).1.init = s.init := by
-  obtain ⟨m, hm⟩ := Option.isSome_iff_exists.mp hq
+    Insertable (afterInit cfg pf s x upd).1.file ∧ (afterInit cfg pf s x upd).1.init = s.init := by
+  obtain ⟨m, hm, hl⟩ := hq
   unfold afterInit
-  cases hl : txLookup x s.ver s.file with
-  | error e => simp [txLookup, hm] at hl
+  cases hlk : txLookup x s.ver s.file with
+  | error e => simp [txLookup, hm] at hlk
   | ok o =>
     cases o with
-    | none => exact ⟨finish_none_transparent hq, finish_inv h, finish_queryable hq, finish_init⟩
+    | none =>
+      obtain ⟨h1, h2, h3⟩ := finish_none_spec (cfg := cfg) (pf := pf) (x := x) ⟨m, hm, hl⟩
+      exact ⟨h1, finish_inv h, h2, h3⟩
     | some lb =>
       obtain ⟨lh, blob⟩ := lb
-      obtain ⟨r, hr, hkey, hver, hblob⟩ := lookup_found hm hl
-      obtain ⟨s1, hs1, hv1, hi1, hq1, hinv1, _⟩ := touched_spec s x upd lh hm
-      simp only []
-      rw [hs1]
-      simp only []
+      obtain ⟨r, hr, hkey, hver, hblob⟩ := lookup_found hm hlk
+      obtain ⟨s1, hs1, hv1, hi1, ⟨rows1, hq1⟩, hinv1, _⟩ := touched_spec s x upd lh hm
+      simp only [hs1]
       have h1 : RowInv pf s1 := hinv1 pf h
+      have hins1 : Insertable s1.file := ⟨_, hq1, hl⟩
       cases blob with
       | good t =>
         cases t with
         | none =>
-          refine ⟨?_, finish_inv h1, finish_queryable hq1, by rw [finish_init, hi1]⟩
-          rw [finish_none_transparent hq1, hv1]
+          obtain ⟨g1, g2, g3⟩ := finish_none_spec (cfg := cfg) (pf := pf) (x := x) hins1
+          exact ⟨by rw [g1, hv1], finish_inv h1, g2, by rw [g3, hi1]⟩
         | some t =>
           have hpf : pf s.ver x = some t := by
             have := h r hr t hblob
             rw [hver, hkey] at this; exact this
-          refine ⟨?_, finish_inv h1, finish_queryable hq1, by rw [finish_init, hi1]⟩
-          simp [finish, hpf]
+          simp only [finish_some]
+          exact ⟨by rw [hpf], h1, hins1, hi1⟩
       | bad e =>
         simp only [hc e, if_true]
-        refine ⟨?_, finish_inv h1, finish_queryable hq1, by rw [finish_init, hi1]⟩
-        rw [finish_none_transparent hq1, hv1]
+        obtain ⟨g1, g2, g3⟩ := finish_none_spec (cfg := cfg) (pf := pf) (x := x) hins1
+        exact ⟨by rw [g1, hv1], finish_inv h1, g2, by rw [g3, hi1]⟩
+
+/-- with a tolerated cache write: right result from every state whose lookup works -/
+theorem afterInit_tolerant {cfg : Cfg} {s : St} {x : TextId} {upd : Bool} (hc : CaughtAll cfg)
+    (hw : cfg.writeTolerant = true) (h : RowInv pf s) (hq : s.file.queryable.isSome = true) :
+    (afterInit cfg pf s x upd).2 = .value (pf s.ver x) := by
+  obtain ⟨m, hm⟩ := Option.isSome_iff_exists.mp hq
+  unfold afterInit
+  cases hlk : txLookup x s.ver s.file with
+  | error e => simp [txLookup, hm] at hlk
+  | ok o =>
+    cases o with
+    | none => exact finish_none_tolerant hw
+    | some lb =>
+      obtain ⟨lh, blob⟩ := lb
+      obtain ⟨r, hr, hkey, hver, hblob⟩ := lookup_found hm hlk
+      obtain ⟨s1, hs1, hv1, _, _, _, _⟩ := touched_spec s x upd lh hm
+      simp only [hs1]
+      cases blob with
+      | good t =>
+        cases t with
+        | none => rw [finish_none_tolerant hw, hv1]
+        | some t =>
+          have hpf : pf s.ver x = some t := by
+            have := h r hr t hblob
+            rw [hver, hkey] at this; exact this
+          simp only [finish_some]
+          rw [hpf]
+      | bad e =>
+        simp only [hc e, if_true]
+        rw [finish_none_tolerant hw, hv1]
 
 /-- `afterInit` keeps the invariant even when it raises -/
 theorem afterInit_inv {cfg : Cfg} {s : St} {x : TextId} {upd : Bool} (h : RowInv pf s) :
@@ -329,9 +373,7 @@ theorem afterInit_inv {cfg : Cfg} {s : St} {x : TextId} {upd : Bool} (h : RowInv
         | some m => exact ⟨m, rfl⟩
       obtain ⟨m, hm⟩ := hm
       obtain ⟨s1, hs1, _, _, _, hinv1, _⟩ := touched_spec s x upd lh hm
-      simp only []
-      rw [hs1]
-      simp only []
+      simp only [hs1]
       have h1 : RowInv pf s1 := hinv1 pf h
       cases blob with
       | good t => exact finish_inv h1
@@ -339,6 +381,11 @@ theorem afterInit_inv {cfg : Cfg} {s : St} {x : TextId} {upd : Bool} (h : RowInv
         by_cases hcg : cfg.isCaught e = true
         · simp only [hcg, if_true]; exact finish_inv h1
         · simp only [hcg]; exact h1
+
+theorem initBlock_insertable {s s' : St} {days : Int} (he : initBlock s days = .ok s') : Insertable s'.file := by
+  obtain ⟨s'', he', _, _, _, rows, c, p, hfile, _⟩ := initBlock_spec s days
+  rw [he] at he'; cases he'
+  exact ⟨⟨.ok, rows⟩, by simp [hfile, DbFile.queryable], by simp⟩
 
 theorem parseCached_inv {cfg : Cfg} {s : St} {x : TextId} {days : Int} {upd : Bool} (h : RowInv pf s) :
     RowInv pf (parseCached cfg pf s x days upd).1 := by
@@ -362,46 +409,65 @@ theorem parseCached_spec {cfg : Cfg} {s : St} {x : TextId} {days : Int} {upd : B
     (h : RowInv pf s) (hs : Synced s) :
     (parseCached cfg pf s x days upd).2 = .value (pf s.ver x) ∧
     (parseCached cfg pf s x days upd).1.init = true ∧
-    (parseCached cfg pf s x days upd).1.file.queryable.isSome = true := by
+    Insertable (parseCached cfg pf s x days upd).1.file := by
   unfold parseCached
   by_cases hi : s.init = true
   · have hq := hs hi
     have hn : s.file.queryable.isNone = false := by
-      cases hqq : s.file.queryable <;> simp_all
+      obtain ⟨m, hm, _⟩ := hq; simp [hm]
     simp only [hi, if_true, hn, Bool.and_false, Bool.false_eq_true, if_false]
     obtain ⟨h1, _, h3, h4⟩ := afterInit_spec (x := x) (upd := upd) hc h hq
     exact ⟨h1, by rw [h4, hi], h3⟩
   · have hif : s.init = false := by simpa using hi
-    obtain ⟨s', he, hinit, hver, _, rows, c, p, hfile, _⟩ := initBlock_spec s days
+    obtain ⟨s', he, hinit, hver, _⟩ := initBlock_spec s days
     simp only [hif, he, Bool.false_eq_true, if_false, Bool.and_false, Bool.false_and]
-    have hq : s'.file.queryable.isSome = true := by simp [hfile, DbFile.queryable]
-    obtain ⟨h1, _, h3, h4⟩ := afterInit_spec (x := x) (upd := upd) hc (initBlock_inv h he) hq
+    obtain ⟨h1, _, h3, h4⟩ := afterInit_spec (x := x) (upd := upd) hc (initBlock_inv h he) (initBlock_insertable he)
     exact ⟨by rw [h1, hver], by rw [h4, hinit], h3⟩
 
-/-- with the recovery of fix C01-1 the same holds from *every* state that satisfies the row invariant -/
+/-- with the recovery of fix 821b239 the same holds also when the damage shows at the lookup -/
 theorem parseCached_spec_recover {cfg : Cfg} {s : St} {x : TextId} {days : Int} {upd : Bool} (hc : CaughtAll cfg)
-    (hr : cfg.recover = true) (h : RowInv pf s) :
+    (hr : cfg.recover = true) (h : RowInv pf s) (hu : Usable s) :
     (parseCached cfg pf s x days upd).2 = .value (pf s.ver x) ∧
     (parseCached cfg pf s x days upd).1.init = true ∧
-    (parseCached cfg pf s x days upd).1.file.queryable.isSome = true := by
+    Insertable (parseCached cfg pf s x days upd).1.file := by
   by_cases hs : Synced s
   · exact parseCached_spec hc h hs
   · have hi : s.init = true := by
       cases hii : s.init with
       | true => rfl
       | false => exact absurd (fun hh => by rw [hii] at hh; cases hh) hs
-    have hn : s.file.queryable.isNone = true := by
-      cases hqq : s.file.queryable with
-      | none => rfl
-      | some m => exact absurd (fun _ => by simp [hqq]) hs
+    have hn : s.file.queryable = none := by
+      rcases hu hi with hq | hq
+      · exact hq
+      · exact absurd (fun _ => hq) hs
     unfold parseCached
-    simp only [hi, if_true, hr, hn, Bool.and_self]
-    obtain ⟨s', he, hinit, hver, _, rows, c, p, hfile, _⟩ := initBlock_spec { s with init := false } days
+    simp only [hi, if_true, hr, hn, Option.isNone_none, Bool.and_self]
+    obtain ⟨s', he, hinit, hver, _⟩ := initBlock_spec { s with init := false } days
     simp only [he]
-    have hq : s'.file.queryable.isSome = true := by simp [hfile, DbFile.queryable]
     obtain ⟨h1, _, h3, h4⟩ := afterInit_spec (x := x) (upd := upd) hc
-      (initBlock_inv (s := { s with init := false }) h he) hq
+      (initBlock_inv (s := { s with init := false }) h he) (initBlock_insertable he)
     exact ⟨by rw [h1, hver], by rw [h4, hinit], h3⟩
+
+/-- with the recovery *and* a tolerated cache write: the right result from every state that satisfies the row
+    invariant, whatever was done to the file, and whenever -/
+theorem parseCached_spec_full {cfg : Cfg} {s : St} {x : TextId} {days : Int} {upd : Bool} (hc : CaughtAll cfg)
+    (hr : cfg.recover = true) (hw : cfg.writeTolerant = true) (h : RowInv pf s) :
+    (parseCached cfg pf s x days upd).2 = .value (pf s.ver x) := by
+  by_cases hu : Usable s
+  · exact (parseCached_spec_recover hc hr h hu).1
+  · have hi : s.init = true := by
+      cases hii : s.init with
+      | true => rfl
+      | false => exact absurd (fun hh => by rw [hii] at hh; cases hh) hu
+    have hq : s.file.queryable.isSome = true := by
+      cases hqq : s.file.queryable with
+      | none => exact absurd (fun _ => Or.inl hqq) hu
+      | some m => rfl
+    have hn : s.file.queryable.isNone = false := by
+      cases hqq : s.file.queryable <;> simp_all
+    unfold parseCached
+    simp only [hi, if_true, hn, Bool.and_false, Bool.false_eq_true, if_false]
+    exact afterInit_tolerant hc hw h hq
 
 /-! ### operations of a history -/
 
@@ -422,6 +488,12 @@ def damaging : Op → Bool
   | .corruptFile _ => true
   | .corruptLayout .models .drop => true
   | .corruptLayout .models .alien => true
+  | .corruptLayout .models .extraCol => true
+  | _ => false
+
+/-- damage that does not show at the lookup but at the insert (not covered by the recovery of 821b239) -/
+def damagingWrite : Op → Bool
+  | .corruptLayout .models .extraCol => true
   | _ => false
 
 theorem rowInv_step (s : St) (op : Op) (hadm : Admissible pf op) (h : RowInv pf s) : RowInv pf (step cfg pf s op).1 := by
@@ -473,6 +545,61 @@ theorem rowInv_step (s : St) (op : Op) (hadm : Admissible pf op) (h : RowInv pf 
       | error e => exact h
       | ok f => exact fileInv_insert h hpf hi
 
+theorem insertable_shape {f : DbFile} (h : Insertable f) :
+    ∃ m mt, f = .db (some m) mt ∧ m.layout ≠ .alien ∧ m.layout ≠ .extraCol := by
+  obtain ⟨m, hq, hl⟩ := h
+  cases f with
+  | garbage => simp [DbFile.queryable] at hq
+  | db mm mt =>
+    cases mm with
+    | none => simp [DbFile.queryable] at hq
+    | some m' =>
+      by_cases ha : m'.layout = .alien
+      · simp [DbFile.queryable, ha] at hq
+      · simp [DbFile.queryable, ha] at hq
+        subst hq
+        exact ⟨_, _, rfl, ha, hl⟩
+
+theorem insertable_of_shape {m : Models} {mt : Option MetaTbl} (ha : m.layout ≠ .alien) (he : m.layout ≠ .extraCol) :
+    Insertable (.db (some m) mt) := ⟨m, by simp [DbFile.queryable, ha], he⟩
+
+theorem insertable_setRows {f : DbFile} {rows : List Row} (h : Insertable f) : Insertable (f.setRows rows) := by
+  obtain ⟨m, hq, hl⟩ := h
+  exact ⟨_, queryable_setRows rows hq, hl⟩
+
+/-- every operation other than a damaging one keeps a fully usable table fully usable -/
+theorem insertable_step_file (s : St) (op : Op) (hd : damaging op = false) (hq : Insertable s.file)
+    (hnp : ∀ x d u b, op ≠ .parse x d u b) : Insertable (step cfg pf s op).1.file := by
+  cases op with
+  | parse x days upd bypass => exact absurd rfl (hnp x days upd bypass)
+  | reload => exact hq
+  | setVersion v d => exact hq
+  | tick us => exact hq
+  | setInc us => exact hq
+  | corruptEntry x v b =>
+    obtain ⟨m, hm, hl⟩ := hq
+    simp only [step, damageEntry, hm]
+    exact insertable_setRows ⟨m, hm, hl⟩
+  | corruptLayout t how =>
+    obtain ⟨m, mt, hf, ha, he⟩ := insertable_shape hq
+    simp only [step, hf]
+    cases t <;> cases how <;> simp [damaging] at hd <;> simp only [damageLayout]
+    all_goals first
+      | exact insertable_of_shape ha he
+      | exact insertable_of_shape (m := ⟨.noPk, _⟩) (by simp) (by simp)
+      | (cases mt with
+         | none => exact insertable_of_shape ha he
+         | some t' => cases t' <;> exact insertable_of_shape ha he)
+  | corruptFile how => simp [damaging] at hd
+  | foreignWrite x v d =>
+    simp only [step, foreignWrite]
+    cases pf v x with
+    | none => exact hq
+    | some t =>
+      obtain ⟨f', he, hi⟩ := txInsert_insertable (x := x) (v := v) (tree := t) (t := s.now - d * day) hq
+      simp only [he]
+      exact hi
+
 theorem synced_step (hc : CaughtAll cfg) (s : St) (op : Op) (h : RowInv pf s) (hs : Synced s)
     (hd : damaging op = true → s.init = false) : Synced (step cfg pf s op).1 := by
   cases op with
@@ -487,25 +614,13 @@ theorem synced_step (hc : CaughtAll cfg) (s : St) (op : Op) (h : RowInv pf s) (h
   | setInc us => exact hs
   | corruptEntry x v b =>
     intro hi
-    have hq := hs hi
-    obtain ⟨m, hm⟩ := Option.isSome_iff_exists.mp hq
-    simp [step, damageEntry, hm, queryable_setRows _ hm]
+    exact insertable_step_file s _ rfl (hs hi) (fun _ _ _ _ hh => by cases hh)
   | corruptLayout t how =>
     intro hi
     have hi' : s.init = true := hi
-    have hq := hs hi'
-    cases t <;> cases how <;>
-      first
-        | (have := hd rfl; rw [this] at hi'; cases hi')
-        | (cases hf : s.file with
-           | garbage => simp [hf, DbFile.queryable] at hq
-           | db m mt =>
-             cases m with
-             | none => simp [hf, DbFile.queryable] at hq
-             | some mm =>
-               simp only [hf, DbFile.queryable] at hq
-               simp [step, hf, damageLayout, DbFile.queryable]
-               try (split at hq <;> simp_all))
+    by_cases hdd : damaging (.corruptLayout t how) = true
+    · rw [hd hdd] at hi'; cases hi'
+    · exact insertable_step_file s _ (by simpa using hdd) (hs hi') (fun _ _ _ _ hh => by cases hh)
   | corruptFile how =>
     intro hi
     have hi' : s.init = true := hi
@@ -513,22 +628,67 @@ theorem synced_step (hc : CaughtAll cfg) (s : St) (op : Op) (h : RowInv pf s) (h
     rw [this] at hi'; cases hi'
   | foreignWrite x v d =>
     intro hi
-    have hq := hs hi
-    obtain ⟨m, hm⟩ := Option.isSome_iff_exists.mp hq
-    simp only [step, foreignWrite]
-    cases pf v x with
-    | none => exact hq
-    | some t => simp [txInsert, hm, queryable_setRows _ hm]
+    exact insertable_step_file s _ rfl (hs hi) (fun _ _ _ _ hh => by cases hh)
 
-
-/-- with the recovery of fix C01-1 a parse leaves the state synced whatever it was -/
-theorem synced_step_recover (hc : CaughtAll cfg) (hr : cfg.recover = true) (s : St) (op : Op) (h : RowInv pf s) :
-    ∀ x d u b, op = .parse x d u b → (b || s.dirty) = false → Synced (step cfg pf s op).1 := by
-  intro x d u b hop hb
-  subst hop
-  intro _
-  simp only [step, hb]
-  exact (parseCached_spec_recover (x := x) (days := d) (upd := u) hc hr h).2.2
+/-- `Usable` (damage shows at the lookup, or none) is kept by everything except write-damage while initialised -/
+theorem usable_step (hc : CaughtAll cfg) (hr : cfg.recover = true) (s : St) (op : Op) (h : RowInv pf s) (hu : Usable s)
+    (hd : damagingWrite op = true → s.init = false) : Usable (step cfg pf s op).1 := by
+  cases op with
+  | parse x days upd bypass =>
+    simp only [step]
+    split
+    · exact hu
+    · intro _; exact Or.inr (parseCached_spec_recover (x := x) (days := days) (upd := upd) hc hr h hu).2.2
+  | reload => intro hi; simp [step] at hi
+  | setVersion v d => exact hu
+  | tick us => exact hu
+  | setInc us => exact hu
+  | corruptEntry x v b =>
+    intro hi
+    rcases hu hi with hq | hq
+    · left; simp [step, damageEntry, hq]
+    · right; exact insertable_step_file s _ rfl hq (fun _ _ _ _ hh => by cases hh)
+  | corruptLayout t how =>
+    intro hi
+    have hi' : s.init = true := hi
+    by_cases hw : damagingWrite (.corruptLayout t how) = true
+    · rw [hd hw] at hi'; cases hi'
+    · by_cases hdd : damaging (.corruptLayout t how) = true
+      · -- drop / alien: the table can no longer be queried
+        left
+        cases t <;> cases how <;> simp [damaging, damagingWrite] at hdd hw <;>
+          (cases hf : s.file <;> simp [step, hf, damageLayout, DbFile.queryable])
+      · rcases hu hi' with hq | hq
+        · -- not queryable before: a `noPk` replacement makes it usable, everything else leaves it as it is
+          cases hf : s.file with
+          | garbage => left; simp [step, hf, damageLayout, DbFile.queryable]
+          | db m mt =>
+            cases t <;> cases how <;> simp [damaging, damagingWrite] at hdd hw
+            all_goals first
+              | (right; simp only [step, hf, damageLayout]; exact insertable_of_shape (m := ⟨.noPk, _⟩) (by simp) (by simp))
+              | (left
+                 have hq' := hq
+                 rw [hf] at hq'
+                 cases m with
+                 | none => simp [step, hf, damageLayout, DbFile.queryable]
+                 | some mm =>
+                   by_cases ha : mm.layout = .alien
+                   · simp [step, hf, damageLayout, DbFile.queryable, ha]
+                   · simp [DbFile.queryable, ha] at hq')
+        · right; exact insertable_step_file s _ (by simpa using hdd) hq (fun _ _ _ _ hh => by cases hh)
+  | corruptFile how =>
+    intro _
+    left
+    cases how <;> simp [step, damageFile, DbFile.queryable]
+  | foreignWrite x v d =>
+    intro hi
+    rcases hu hi with hq | hq
+    · left
+      simp only [step, foreignWrite]
+      cases pf v x with
+      | none => exact hq
+      | some t => simp [txInsert, hq]
+    · right; exact insertable_step_file s _ rfl hq (fun _ _ _ _ hh => by cases hh)
 
 /-- planting a blob that unpickles to `None` is the only way such a row comes into existence -/
 def plantsNone : Op → Bool
@@ -543,23 +703,19 @@ theorem noNone_setRows {f : DbFile} {m : Models} {rows : List Row} (hq : f.query
 
 theorem noNone_insert {f f' : DbFile} {x : TextId} {v : Ver} {tree : TreeId} {t : Int} (h : NoNone f)
     (he : txInsert x v tree t f = .ok f') : NoNone f' := by
-  unfold txInsert at he
-  split at he
-  · cases he
-  · rename_i m hq
-    cases he
-    apply noNone_setRows hq
-    intro r hr
-    rcases List.mem_append.mp hr with hr | hr
-    · have : r ∈ m.rows := by
-        split at hr
-        · exact (List.mem_filter.mp hr).1
-        · exact hr
-      exact h r (by rw [queryable_rows hq]; exact this)
-    · simp at hr; subst hr; simp
+  obtain ⟨m, hq, _, rfl⟩ := txInsert_ok he
+  apply noNone_setRows hq
+  intro r hr
+  rcases List.mem_append.mp hr with hr | hr
+  · have : r ∈ m.rows := by
+      split at hr
+      · exact (List.mem_filter.mp hr).1
+      · exact hr
+    exact h r (by rw [queryable_rows hq]; exact this)
+  · simp at hr; subst hr; simp
 
-theorem noNone_finish {s : St} {x : TextId} {tree : Option TreeId} (h : NoNone s.file) :
-    NoNone (finish pf s x tree).1.file := by
+theorem noNone_finish {cfg : Cfg} {s : St} {x : TextId} {tree : Option TreeId} (h : NoNone s.file) :
+    NoNone (finish cfg pf s x tree).1.file := by
   unfold finish
   split
   · exact h
@@ -567,7 +723,7 @@ theorem noNone_finish {s : St} {x : TextId} {tree : Option TreeId} (h : NoNone s
     · exact h
     · simp only []
       split
-      · exact h
+      · split <;> exact h
       · rename_i f he
         exact noNone_insert (f := s.file) h (by simpa [St.read] using he)
 
